@@ -56,6 +56,9 @@ func generate(prop, tier string, seed uint64, run int) *Scenario {
 	if os.Getenv("VERIF_DEBUG_FAMILY") == "reuse" {
 		return genReuse(prop, seed, run)
 	}
+	if (prop == "C01" || prop == "C02" || prop == "C08") && pick >= 96 {
+		return genDeep(prop, seed, run)
+	}
 	switch prop {
 	case "C01":
 		return genMix(prop, seed, run, mixOpts{lagfree: 0.3, apiChurn: 0.12, spellings: pick < 25, shapes: allShapes, overflow: 0.12, maxOps: 36, watchFiles: 0.3, worldTasks: 3, withOps: 0.0, burst: 0.04, bigBurst: tier == "thorough"})
